@@ -40,11 +40,11 @@ def generate(seed, tier="quick", faults=True, light=False, **kw):
     if r.random() < 0.15:
         o["reserved"] = [r.choice(["zebra", "qux", "Xyzzy1"])]
     ctx = GC.make_ctx(r, o)
-    nfiles = 1 if single else r.randint(1, 8)
+    nfiles = 1 if single else (r.randint(20, 40) if (r.random() < 0.02 and not light) else r.randint(1, 8))
     paths, dirs, hidden = GC.gen_tree(r, nfiles, hidden=not single, dirs=not single)
     files = []
     for p in paths:
-        files.append({"path": p, "lines": GC.gen_lines(r, ctx, secrets, o, r.randint(0, 14))})
+        files.append({"path": p, "lines": GC.gen_lines(r, ctx, secrets, o, r.randint(0, 14) if nfiles <= 8 else r.randint(0, 3))})
         if o["ip"] and r.random() < 0.25:
             files[-1]["lines"].insert(r.randint(0, len(files[-1]["lines"])), GC.directed_line(r))
         if o["ip"] and ctx["a4"] and r.random() < 0.12:
